@@ -1160,10 +1160,14 @@ class TrajectoryStore:
         if self.mode == self.FileMode.APPEND:
             self._next_index = len(base_nc_file.traj_dim[0])
 
-        # Set up index information.
+        # Set up index information. A file without an index group holds
+        # trajectories without flight IDs: the store is known not to be
+        # indexable (so that an append session cannot mix the two kinds).
         if '_index' in base_nc_file.dataset[0].groups:
             self.index_group = base_nc_file.dataset[0].groups['_index']
             self.indexable = True
+        else:
+            self.indexable = False
 
         # Open any associated NetCDF files.
         for name in self.associated_files:
